@@ -157,7 +157,7 @@ def run(ctx):
         c.setdefault("hr", [])
     byid = {c["id"]: c for c in cases}
     ctx.sample({k: v for k, v in cases[0].items() if k in ("id", "kind", "ent", "idx")})
-    bad = ctx.validate("bip39/C14Cases.tla", cases, "C14Cases.cfg", timeout=3000, per_shard_min=20)
+    bad = ctx.validate("bip39/C14Cases.tla", cases, "C14Cases.cfg", timeout=7200, per_shard_min=20)
     for cid, why in bad.items():
         c = byid[cid]
         ctx.violation("%s:%s" % (c["kind"], why), "%s case %s: %s" % (c["kind"], cid, why), {"kind": "case", "case": {k: v for k, v in c.items() if k != "hr"}})
